@@ -35,6 +35,8 @@ pub(crate) struct SynChain {
     pub store: Store,
     pub plan: Vec<EpochPlan>,
     pub salt: u64,
+    /// MMR activation epoch: headers up to and including the first block of this epoch carry no chain root
+    pub act: u64,
 }
 
 /// A tau-legal epoch plan: epoch difficulty moves by at most a factor two per epoch.
@@ -129,9 +131,19 @@ fn build_header(number: u64, epoch: (u64, u64, u64, u32), parent_hash: packed::B
 impl SynChain {
     /// a chain of `len` blocks (numbers 0..len-1) following `plan`; `salt` distinguishes branches
     pub(crate) fn new(plan: Vec<EpochPlan>, len: u64, salt: u64) -> SynChain {
-        let mut c = SynChain { headers: Vec::new(), roots: Vec::new(), tds: Vec::new(), store: Store::default(), plan, salt };
+        Self::new_with_activation(plan, len, salt, 0)
+    }
+
+    pub(crate) fn new_with_activation(plan: Vec<EpochPlan>, len: u64, salt: u64, act: u64) -> SynChain {
+        let mut c = SynChain { headers: Vec::new(), roots: Vec::new(), tds: Vec::new(), store: Store::default(), plan, salt, act };
         c.grow(len, salt, 0);
         c
+    }
+
+    /// does block `number` commit to its parent chain root (epoch strictly after (act, 0, 1))?
+    pub(crate) fn has_root(&self, number: u64) -> bool {
+        let ep = epoch_of(&self.plan, number);
+        number > 0 && (ep.0 > self.act || (ep.0 == self.act && ep.1 > 0))
     }
 
     pub(crate) fn len(&self) -> u64 {
@@ -158,7 +170,7 @@ impl SynChain {
                 let mmr: MMR<packed::HeaderDigest, MergeHeaderDigest, &Store> = MMR::new(mmr_size, &self.store);
                 (self.headers[number as usize - 1].hash(), mmr.get_root().expect("root"))
             };
-            let ext: Option<packed::Bytes> = if number == 0 { None } else { Some(root.calc_mmr_hash().as_bytes().pack()) };
+            let ext: Option<packed::Bytes> = if !self.has_root(number) { None } else { Some(root.calc_mmr_hash().as_bytes().pack()) };
             let timestamp = T0 - tip_age_ms - (len - 1 - number) * 8_000;
             let header = build_header(number, ep, parent_hash, ext.as_ref(), timestamp, salt);
             let bd = compact_to_difficulty(ep.3);
@@ -177,7 +189,7 @@ impl SynChain {
 
     /// a new chain sharing blocks 0..=at with this one, then `extra` different blocks
     pub(crate) fn fork(&self, at: u64, extra: u64, salt: u64, plan: Option<Vec<EpochPlan>>) -> SynChain {
-        let mut c = SynChain { headers: Vec::new(), roots: Vec::new(), tds: Vec::new(), store: Store::default(), plan: plan.unwrap_or_else(|| self.plan.clone()), salt };
+        let mut c = SynChain { headers: Vec::new(), roots: Vec::new(), tds: Vec::new(), store: Store::default(), plan: plan.unwrap_or_else(|| self.plan.clone()), salt, act: self.act };
         let mut mmr_size = 0;
         for i in 0..=at as usize {
             let mut mmr: MMR<packed::HeaderDigest, MergeHeaderDigest, &Store> = MMR::new(mmr_size, &c.store);
@@ -193,7 +205,7 @@ impl SynChain {
     }
 
     pub(crate) fn extension(&self, number: u64) -> Option<packed::Bytes> {
-        if number == 0 { None } else { Some(self.roots[number as usize].calc_mmr_hash().as_bytes().pack()) }
+        if !self.has_root(number) { None } else { Some(self.roots[number as usize].calc_mmr_hash().as_bytes().pack()) }
     }
 
     pub(crate) fn packed_vheader(&self, number: u64) -> packed::VerifiableHeader {
